@@ -50,6 +50,9 @@ func writeEvidence(prop, tier string, sel []*HarnessInfo, res map[string]*RunRes
 		if r.Cross != nil {
 			ph["cross_check"] = r.Cross
 		}
+		if r.Race != nil {
+			ph["race_monitor"] = r.Race
+		}
 		perHarness = append(perHarness, ph)
 		if len(r.Witnesses) > 0 && len(samples) < 6 {
 			w := r.Witnesses[0]
